@@ -75,6 +75,7 @@ func init() {
 
 func runC24(c *Ctx) {
 	c24FetchedChains(c)
+	keyIDAgreement(c, "K1-key-id-agreement")
 	psT := "(*pkg/segment.PathSegment)"
 	// A1: sibling agreement on associated data
 	if v := c.View(psT + ".AddASEntry"); v != nil {
